@@ -49,7 +49,7 @@ pub fn reference_schedule<G: ark_ec::AffineRepr>(shape: &Shape, V: &[G], proof: 
     let mut j = 0;
     for op in shape.phase1.iter() {
         match op {
-            Op::Commit | Op::CommitZero => {
+            Op::Commit | Op::CommitZero | Op::CommitDup => {
                 v.push(app(b"V", ser(&V[j]), &format!("commitment V{}", j)));
                 j += 1;
             }
